@@ -114,6 +114,11 @@ fn main() {
             let p = project(&root, &format!("gen_{}", mode), Some(conf_plain));
             fs::create_dir_all(p.join("src/generated")).map_err(|e| e.to_string())?;
             for d in ["helpers.ts", "commands.test.ts", ".gitkeep", ".write_test", "README.md", "dependency-graph.png", "dependency-graph.svg"] { fs::write(p.join("src/generated").join(d), format!("foreign {}", d)).map_err(|e| e.to_string())?; }
+            // kept copies of earlier output: their content looks generated, their names are not reserved
+            for d in ["api-v1.ts", "types.backup.ts", "old/types.ts"] {
+                fs::create_dir_all(p.join("src/generated/old")).map_err(|e| e.to_string())?;
+                fs::write(p.join("src/generated").join(d), "/**\n * Auto-generated TypeScript bindings for Tauri commands\n * Generated by tauri-typegen v0.4.2\n * Generated at: 2025-01-01T00:00:00+00:00\n * Generator: none\n *\n * Do not edit manually - regenerate using: cargo tauri-typegen generate\n */\n\nexport interface Kept { id: number; }\n").map_err(|e| e.to_string())?;
+            }
             let before = snapshot(&p);
             let pp = p.join("src-tauri"); let gp = p.join("src/generated");
             for (force, viz) in [(true, false), (false, false), (true, true), (true, false), (false, false)] {
@@ -213,6 +218,28 @@ fn main() {
                 Ok("ok".into())
             });
         }
+    }
+
+    // ---------------------------------------------------------------- C02: index.ts re-exports the files of the same run, not what an earlier run left behind
+    for mode in ["none", "zod"] {
+        rep.case("index_reexports_the_files_of_the_same_run", &format!("--validation {} second run after the only emit was removed", mode), &|| {
+            let p = project(&root, &format!("idx_{}", mode), Some(conf_plain));
+            let pp = p.join("src-tauri"); let gp = p.join("out"); let fp = p.join("fresh");
+            fs::write(pp.join("src/lib.rs"), LIB_EDIT).map_err(|e| e.to_string())?;
+            let (code, text) = run(&cli, &p, &["generate", "--project-path", pp.to_str().unwrap(), "--output-path", gp.to_str().unwrap(), "--validation", mode, "--force"])?;
+            if code != 0 { return Err(format!("the first run ended with status {}: {}", code, text.chars().take(200).collect::<String>())); }
+            if !gp.join("events.ts").exists() { return Err("UNPARSED: the first run wrote no events.ts".into()); }
+            fs::write(pp.join("src/lib.rs"), LIB_EDIT.replacen("app.emit(\"saved\", retry_count).ok(); ", "", 1)).map_err(|e| e.to_string())?;
+            for (dir, label) in [(&gp, "second"), (&fp, "fresh")] {
+                let (code, text) = run(&cli, &p, &["generate", "--project-path", pp.to_str().unwrap(), "--output-path", dir.to_str().unwrap(), "--validation", mode, "--force"])?;
+                if code != 0 { return Err(format!("the {} run ended with status {}: {}", label, code, text.chars().take(200).collect::<String>())); }
+            }
+            let exports = |d: &Path| -> Result<Vec<String>, String> { Ok(fs::read_to_string(d.join("index.ts")).map_err(|e| format!("index.ts: {}", e))?.lines().filter(|l| l.trim_start().starts_with("export ")).map(|l| l.trim().to_string()).collect()) };
+            let (a, b) = (exports(&gp)?, exports(&fp)?);
+            if fp.join("events.ts").exists() { return Err("UNPARSED: a fresh run of the project without emit still writes events.ts".into()); }
+            if a != b { return Err(format!("index.ts of the second run re-exports {:?}; the run wrote what a fresh run writes, whose index.ts re-exports {:?}", a, b)); }
+            Ok(format!("{:?}", a))
+        });
     }
 
     // ---------------------------------------------------------------- C04 / C06 / C11 / C12 / C05: a second run through the generation cache equals a forced run
